@@ -1,5 +1,6 @@
 import Rbacx.Generated
 import Rbacx.Proofs.CondTranslated
+import Rbacx.Proofs.Total
 /-!
   Per-run obligation: the CONDITION EVALUATOR of core/policy.py as it is written NOW — `eval_condition` and its helpers `_is_strict`,
   `_ensure_str`, `_as_collection`, `_ensure_numeric_strict`, `resolve`, translated statement by statement in EXCEPTION-PASSING style
@@ -166,6 +167,129 @@ theorem eval_binops (cx : CondCtx) (kvs : List (String × PyVal)) :
       | Option.none => .ok .next := by
   exact (eval_binops_chain cx kvs).trans (chainModel_eq cx _ _)
 
+/-! ### stage 3: the whole function — non-dict conditions, `rel` (external), the operators, `and` / `or` / `not`, `return False` -/
+
+theorem containsE_key (kvs : List (String × PyVal)) (k : String) :
+    containsE (.dict kvs) (.str k) = .ok (.bool (PyVal.hasKey (.dict kvs) k)) := rfl
+
+theorem itemE_key (kvs : List (String × PyVal)) (k : String) (h : PyVal.hasKey (.dict kvs) k = true) :
+    itemE (.dict kvs) (.str k) = .ok ((PyVal.dict kvs).get k) := by
+  simp only [PyVal.hasKey] at h
+  obtain ⟨v, hv⟩ := Option.isSome_iff_exists.mp h
+  simp only [itemE, PyVal.get, hv, Option.getD_some]
+
+/-- a condition that is not a dict is its truth value (any positive budget) -/
+theorem eval_condition_lit (cx : CondCtx) (c : PyVal) (n : Nat) (h : c.isDict = false) :
+    Src.eval_condition cx.o noAttr (parseDtExt cx.o) (relExt cx) c cx.env (n + 1) = .ok (.bool c.truthy) := by
+  cases c <;> first | rfl | (simp [PyVal.isDict] at h)
+
+/-- the operand of `and` (resp. `or` below): not iterable ⇒ ConditionTypeError; a list ⇒ its items, evaluated recursively, left to right
+    with short-circuit; a str / dict ⇒ its characters / keys, each a non-dict condition -/
+theorem and_operand (cx : CondCtx) (n : Nat)
+    (ih : ∀ c : PyVal, c.size < n → Src.eval_condition cx.o noAttr (parseDtExt cx.o) (relExt cx) c cx.env n =
+      (evalCond cx (parseCond n c)).map PyVal.bool) (v : PyVal) (hv : v.size < n) :
+    (if (!(PyE.isInstance v ["Iterable"]).truthy) = true then PyE.raise "ConditionTypeError"
+     else PyE.bind (iterE v) fun t => allE t fun c => Src.eval_condition cx.o noAttr (parseDtExt cx.o) (relExt cx) c cx.env n) =
+    (evalCond cx (Cond.all (parseSubsWith (parseCond n) v))).map PyVal.bool := by
+  obtain ⟨n', rfl⟩ : ∃ n', n = n' + 1 := ⟨n - 1, by have := size_pos v; omega⟩
+  rcases subs_cases (parseCond (n' + 1)) v with ⟨h1, h2⟩ | ⟨xs, rfl, h2⟩ | ⟨h1, hnd, h2⟩
+  · simp only [truthy_isInstance_iterable, h1, h2, evalCond]; rfl
+  · rw [h2]
+    simp only [truthy_isInstance_iterable, isIterable, Bool.not_true, Bool.false_eq_true, if_false, iterE, if_true, Rbacx.Py.iter, bind_ok, evalCond]
+    apply allE_evalAll
+    intro x hx
+    have := size_mem x xs hx
+    simp only [PyVal.size] at hv
+    exact ih x (by omega)
+  · rw [h2]
+    simp only [truthy_isInstance_iterable, h1, Bool.not_true, Bool.false_eq_true, if_false, iterE, if_true, bind_ok, evalCond]
+    apply allE_evalAll
+    intro x hx
+    rw [eval_condition_lit cx x n' (hnd x hx)]; rfl
+
+theorem or_operand (cx : CondCtx) (n : Nat)
+    (ih : ∀ c : PyVal, c.size < n → Src.eval_condition cx.o noAttr (parseDtExt cx.o) (relExt cx) c cx.env n =
+      (evalCond cx (parseCond n c)).map PyVal.bool) (v : PyVal) (hv : v.size < n) :
+    (if (!(PyE.isInstance v ["Iterable"]).truthy) = true then PyE.raise "ConditionTypeError"
+     else PyE.bind (iterE v) fun t => anyE t fun c => Src.eval_condition cx.o noAttr (parseDtExt cx.o) (relExt cx) c cx.env n) =
+    (evalCond cx (Cond.any (parseSubsWith (parseCond n) v))).map PyVal.bool := by
+  obtain ⟨n', rfl⟩ : ∃ n', n = n' + 1 := ⟨n - 1, by have := size_pos v; omega⟩
+  rcases subs_cases (parseCond (n' + 1)) v with ⟨h1, h2⟩ | ⟨xs, rfl, h2⟩ | ⟨h1, hnd, h2⟩
+  · simp only [truthy_isInstance_iterable, h1, h2, evalCond]; rfl
+  · rw [h2]
+    simp only [truthy_isInstance_iterable, isIterable, Bool.not_true, Bool.false_eq_true, if_false, iterE, if_true, Rbacx.Py.iter, bind_ok, evalCond]
+    apply anyE_evalAny
+    intro x hx
+    have := size_mem x xs hx
+    simp only [PyVal.size] at hv
+    exact ih x (by omega)
+  · rw [h2]
+    simp only [truthy_isInstance_iterable, h1, Bool.not_true, Bool.false_eq_true, if_false, iterE, if_true, bind_ok, evalCond]
+    apply anyE_evalAny
+    intro x hx
+    rw [eval_condition_lit cx x n' (hnd x hx)]; rfl
+
+/-- with any budget above the size of the document, the translated `eval_condition` is the model's evaluation of the document parsed
+    with that budget -/
+theorem eval_condition_parse (cx : CondCtx) : ∀ (n : Nat) (c : PyVal), c.size < n →
+    Src.eval_condition cx.o noAttr (parseDtExt cx.o) (relExt cx) c cx.env n = (evalCond cx (parseCond n c)).map PyVal.bool := by
+  intro n
+  induction n with
+  | zero => intro c h; omega
+  | succ n ih =>
+    intro c h
+    cases c with
+    | dict kvs =>
+      have hsub : ∀ k, PyVal.hasKey (.dict kvs) k = true → ((PyVal.dict kvs).get k).size < n := by
+        intro k hk
+        have := size_get_lt k kvs hk
+        omega
+      have hbin := eval_binops cx kvs
+      simp only [CondCtx.strict] at hbin
+      unfold Src.eval_condition
+      simp only [is_strict_e, bind_ok, truthy_pnot, truthy_isInstance_dict, PyVal.isDict, Bool.not_true, Bool.false_eq_true, if_false,
+        containsE_key, truthy_bool, hbin, parseCond]
+      by_cases hrel : PyVal.hasKey (.dict kvs) "rel" = true
+      · simp only [hrel, if_true, evalCond]; rfl
+      · simp only [hrel, Bool.false_eq_true, if_false]
+        cases List.find? (fun op => PyVal.hasKey (.dict kvs) op.key) binOpsInOrder with
+        | some op => simp only [evalCond]; cases evalBin cx op ((PyVal.dict kvs).get op.key) <;> rfl
+        | none =>
+          simp only [afterRange]
+          by_cases hand : PyVal.hasKey (.dict kvs) "and" = true
+          · simp only [hand, if_true, itemE_key kvs "and" hand, bind_ok]
+            exact and_operand cx n ih _ (hsub "and" hand)
+          · simp only [hand, Bool.false_eq_true, if_false]
+            by_cases hor : PyVal.hasKey (.dict kvs) "or" = true
+            · simp only [hor, if_true, itemE_key kvs "or" hor, bind_ok]
+              exact or_operand cx n ih _ (hsub "or" hor)
+            · simp only [hor, Bool.false_eq_true, if_false]
+              by_cases hnot : PyVal.hasKey (.dict kvs) "not" = true
+              · simp only [hnot, if_true, itemE_key kvs "not" hnot, bind_ok, ih _ (hsub "not" hnot), evalCond]
+                cases evalCond cx (parseCond n ((PyVal.dict kvs).get "not")) <;> rfl
+              · simp only [hnot, Bool.false_eq_true, if_false, evalCond]; rfl
+    | _ => exact eval_condition_lit cx _ n rfl
+
+/-- THE tie for C04/C06: with a budget above the size of the document (`size` counts the nodes of the JSON value; the evaluator
+    `Run/SrcEvalCond.lean` uses `size + 1`), the condition evaluator as the source has it NOW computes the model's
+    `evalCond cx (condOf cond)` — the same truth value, or the same exception (`typeMismatch` = ConditionTypeError, `raised cls`) —
+    for every document `cond` (dict or not, well-formed or not), every environment `cx.env`, every oracle and every relationship
+    checker.  Externals: `getattr` answers "absent" (`noAttr`), `_parse_dt` is the model's `parseDt` through the oracle
+    (`parseDtExt`), the `rel` branch is the model's `evalRel` (`relExt`). -/
+theorem eval_condition (cx : CondCtx) (cond : PyVal) (fuel : Nat) (hfuel : cond.size < fuel) :
+    Src.eval_condition cx.o noAttr (parseDtExt cx.o) (relExt cx) cond cx.env fuel = (evalCond cx (condOf cond)).map PyVal.bool := by
+  rw [eval_condition_parse cx fuel cond hfuel, parseCond_condOf fuel cond hfuel]
+
+/-- the budget never changes an answer: two budgets above the size give the same result -/
+theorem eval_condition_any_fuel (cx : CondCtx) (cond : PyVal) (f1 f2 : Nat) (h1 : cond.size < f1) (h2 : cond.size < f2) :
+    Src.eval_condition cx.o noAttr (parseDtExt cx.o) (relExt cx) cond cx.env f1 =
+      Src.eval_condition cx.o noAttr (parseDtExt cx.o) (relExt cx) cond cx.env f2 := by
+  rw [eval_condition cx cond f1 h1, eval_condition cx cond f2 h2]
+
+/-- C06 on the translated source: what a binary operator raises on a two-element operand list is ConditionTypeError and nothing else -/
+theorem eval_binops_never_raises (cx : CondCtx) (op : BinOp) (a b : PyVal) (e : CondErr)
+    (h : evalBin cx op (.list [a, b]) = .error e) : e = .typeMismatch := evalBin_err cx op a b e h
+
 end Rbacx.Translated
 
 #print axioms Rbacx.Translated.is_strict_e
@@ -175,3 +299,6 @@ end Rbacx.Translated
 #print axioms Rbacx.Translated.resolve
 #print axioms Rbacx.Translated.eval_binops_chain
 #print axioms Rbacx.Translated.eval_binops
+#print axioms Rbacx.Translated.eval_condition_parse
+#print axioms Rbacx.Translated.eval_condition
+#print axioms Rbacx.Translated.eval_condition_any_fuel
